@@ -79,8 +79,10 @@ class Verifier(Engine):
     def result_env(self, fr, st, vals, fn):
         env = self.mkenv(fr, st)
         rs = fn.results
+        c_ = self.contract_for(fn)
+        rn = c_.flags.get('results', '').split() if c_ is not None else []
         for i, (r, v) in enumerate(zip(rs, vals)):
-            n = r['name'] or ('result' if len(rs) == 1 else 'result%d' % i)
+            n = (rn[i] if i < len(rn) else None) or r['name'] or ('result' if len(rs) == 1 else 'result%d' % i)
             env['vars'][n] = (v, r['type'])
             if len(rs) == 1: env['vars']['result'] = (v, r['type'])
         # at return, names are evaluated in the final state: parameters keep their entry values
